@@ -47,8 +47,10 @@ class Operator:
     @property
     def typed_action_call(self) -> str:
         if self.problem_objects is not None:
+            # the call may also mention constants of the domain
+            call_objects = {**self.domain.constants, **self.problem_objects}
             signature_str_items = [
-                f"{parameter_name} - {str(self.problem_objects[parameter_name].type.name)}"
+                f"{parameter_name} - {str(call_objects[parameter_name].type.name)}"
                 for parameter_name in self.grounded_call_objects
             ]
         else:
